@@ -1,0 +1,39 @@
+//go:build verif
+
+package jsonld
+
+// Verification hooks (build tag `verif` only; nothing here is compiled into a normal build).
+//
+// The Context Processing, Create Term Definition and IRI Expansion algorithms live in an internal
+// package; these aliases make the hooks of jsonldinternal/export_verif_ctx.go reachable from outside
+// of the module tree. See that file for the rendering of contexts, expanded IRIs and JSON values.
+
+import (
+	"github.com/dpb587/inspectjson-go/inspectjson"
+	"github.com/dpb587/rdfkit-go/encoding/jsonld/internal/jsonldinternal"
+)
+
+type VerifContext = jsonldinternal.VerifContext
+
+type VerifContextOptions = jsonldinternal.VerifContextOptions
+
+// VerifNewContext builds the initial active context of Expand for a processing mode and base URL.
+func VerifNewContext(processingMode string, baseURL *string) (*VerifContext, error) {
+	return jsonldinternal.VerifNewContext(processingMode, baseURL)
+}
+
+// VerifProcessContext runs the Context Processing algorithm on top of active; active.Token() and
+// the result's Token() render every field of the two contexts.
+func VerifProcessContext(active *VerifContext, localContext inspectjson.Value, opts VerifContextOptions) (*VerifContext, string, error) {
+	return jsonldinternal.VerifProcessContext(active, localContext, opts)
+}
+
+// VerifExpandIRI runs the IRI Expansion algorithm (no local context) under active.
+func VerifExpandIRI(active *VerifContext, value inspectjson.Value, documentRelative, vocab bool) (string, string, error) {
+	return jsonldinternal.VerifExpandIRI(active, value, documentRelative, vocab)
+}
+
+// VerifJSON renders a JSON value the way context tokens do.
+func VerifJSON(v inspectjson.Value) string {
+	return jsonldinternal.VerifJSON(v)
+}
